@@ -160,7 +160,9 @@ def run(ctx):
                     continue
                 lines.append('set 0 %s %d' % (o[1], ov))
             comp = (~v) & ((1 << min(bits, 64)) - 1) if kind in (1, 3) else ((v + 1) % 4 if kind == 2 else v ^ 0x5a5a5a5a5a5a5a5a)
-            lines += ['ser', 'view', 'set 0 %s %d' % (fld, comp), 'set 0 %s %d' % (fld, v), 'ser']
+            if rng.random() < 0.3:
+                lines.append('raw x' + bytes(rng.randrange(256) for _ in range(rng.choice([1, 4, 20]))).hex())      # the layer carries something
+            lines += ['ser', 'view', 'set 0 %s %d' % (fld, comp), 'set 0 %s %d' % (fld, v), 'ser', 'view']
             sid = 's%d' % n
             n += 1
             scripts.append((sid, lines))
@@ -214,6 +216,14 @@ def run(ctx):
         b0, a0 = before[0][1], after[0][1]
         exp = value_string(kind, bits, v)
         got = a0.get(fld)
+        # the value is still there after serialize() (fields of the independent wire table: none of them is derived)
+        fin = parse_view(o[i_view + 4]) if len(o) > i_view + 4 else None
+        def _derived(c_, f_):
+            o_, w_ = SPEC[c_][0][f_]
+            return any(d_ in SPEC[c_][1] for d_ in range(o_ // 8, (o_ + w_ + 7) // 8))
+        if fin and cls in SPEC and fld in SPEC[cls][0] and not _derived(cls, fld) and not (cls == 'IP' and fld == 'src_addr' and wire_value(kind, bits, v) == 0) \
+                and got == exp and fin[0][1].get(fld) != got:
+            viol.append((True, '%s.%s: set %s, the getter returns %s after serialize()' % (cls, fld, exp, fin[0][1].get(fld)), lines))
         nontriv.add((cls, fld))
         if kind in (1, 2) and got is not None and exp is not None and got != exp:
             key = '%s.%s' % (cls, fld)
